@@ -137,7 +137,7 @@ fn session<C: Suite>(ctx: &mut Ctx, n: u16, t: u16, kind: &str, source: &str, cl
     let mut rands: BTreeMap<Identifier<C>, (Vec<u8>, Vec<u8>)> = BTreeMap::new();
     for id in &signers {
         let mut r = TraceRng::from_parts(&[b"c02", &ctx.seed.to_le_bytes(), &ctx.cur_item.to_le_bytes(), &id.serialize()]);
-        let (nn, cc) = frost_core::round1::commit::<C, _>(grp.kps[id].signing_share(), &mut r);
+        let (nn, cc) = C::api_commit(grp.kps[id].signing_share(), &mut r);
         if r.stream.len() != 64 {
             ctx.viol("bit-exact", "randomness-consumed", json!({"bytes": r.stream.len()}));
             return;
@@ -159,7 +159,7 @@ fn session<C: Suite>(ctx: &mut Ctx, n: u16, t: u16, kind: &str, source: &str, cl
     let Ok(chal) = <C as Ciphersuite>::challenge(&r_el, &vk_eff, msg) else { return };
     let mut shares = BTreeMap::new();
     for id in &signers {
-        let Ok(sh) = frost_core::round2::sign(&pkg, &nonces[id], &grp.kps[id]) else { return ctx.viol("honest-sign-failed", "", json!({})) };
+        let Ok(sh) = C::api_sign(&pkg, &nonces[id], &grp.kps[id]) else { return ctx.viol("honest-sign-failed", "", json!({})) };
         let lam = frost_core::derive_interpolating_value(id, &pkg).map(|l| sc_hex::<C>(&l)).unwrap_or_default();
         signer_log.push(json!({
             "id": id_hex::<C>(id),
@@ -174,7 +174,7 @@ fn session<C: Suite>(ctx: &mut Ctx, n: u16, t: u16, kind: &str, source: &str, cl
         }));
         shares.insert(*id, sh);
     }
-    let Ok(sig) = frost_core::aggregate(&pkg, &shares, &grp.pkp) else { return ctx.viol("honest-aggregate-failed", "", json!({})) };
+    let Ok(sig) = C::api_aggregate(&pkg, &shares, &grp.pkp) else { return ctx.viol("honest-aggregate-failed", "", json!({})) };
     let sigb = Signature::<C>::serialize(&sig).unwrap();
     ctx.event(json!({"k": "session", "item": ctx.cur_item, "n": n, "t": t, "ids": kind, "keys": source,
         "vk": el_hex::<C>(&vk.to_element()), "msg": hex::encode(msg),
